@@ -613,6 +613,13 @@ def do_backup(options):
             log('file shrunk, possibly because of a pack (full backup)')
             do_full_backup(options)
             return
+        # An empty last incremental (only an unfinished transaction had
+        # been added to the file) leaves nothing to compare: the checksum
+        # of an empty range cannot show that the file is unchanged.
+        if startpos == endpos:
+            log('last incremental is empty, cannot verify (full backup)')
+            do_full_backup(options)
+            return
         # Now check the md5 sum of the source file, from the last
         # incremental's start and stop positions.
         srcfp = open(options.file, 'rb')
